@@ -458,10 +458,15 @@ class GenSource:
             got = self._pick_path(w, lambda s, t, n, p: s[t]["k"] == "struct" and "*" not in p)
             if got is not None:
                 o, p, t, n = got
-                cands = [x for x in w.live_objs(t) if x.k != o.k and _shape_compatible(w.schema, t, n, x.node) and _same_caps(w.schema, t, n, x.node)]
+                cands = [x for x in w.live_objs(t) if x.k != o.k and (_shape_compatible(w.schema, t, n, x.node) or not typegen.has_refs(w.schema, t))]
                 if cands:
                     return {"op": "set", "obj": o.k, "path": p, "value": {"obj": rng.choice(cands).k}, "via": self._via(o)}
-        got = self._pick_path(w, lambda s, t, n, p: s[t]["k"] in ("struct", "array") and not typegen.has_refs(s, t))
+        got = None
+        if rng.random() < 0.25:
+            # a dict for a struct that holds references: references named in it with None are nulled
+            got = self._pick_path(w, lambda s, t, n, p: s[t]["k"] == "struct" and typegen.has_refs(s, t) and all(s[f[1]]["k"] in ("sc", "str", "ref", "uref") or not typegen.has_refs(s, f[1]) for f in s[t]["fields"]))
+        if got is None:
+            got = self._pick_path(w, lambda s, t, n, p: s[t]["k"] in ("struct", "array") and not typegen.has_refs(s, t))
         if got is None:
             return None
         o, p, t, n = got
@@ -482,9 +487,17 @@ class GenSource:
             fits = [s for s in M.STRINGS if len(s.encode()) + 1 <= cap]
             return {"s": rng.choice(fits or [""])}
         if k == "struct":
-            d = {f[0]: self._same_shape_value(w, f[1], node.f[f[0]]) for f in ty["fields"]}
-            if any(v is None for v in d.values()):
-                return None
+            d = {}
+            for f in ty["fields"]:
+                v = self._same_shape_value(w, f[1], node.f[f[0]])
+                if w.schema[f[1]]["k"] in ("ref", "uref"):
+                    if v == "keep":
+                        continue  # field not mentioned in the dict: stays as it is
+                    d[f[0]] = None
+                    continue
+                if v is None:
+                    return None
+                d[f[0]] = v
             return {"d": d}
         if k == "array":
             n = len(node.items)
@@ -497,6 +510,11 @@ class GenSource:
                 hexd = "".join(x["x"] for x in its)
                 return {"nd": {"hex": hexd, "src": w.schema[ty["item"]]["t"], "shape": list(node.shape), "layout": rng.choice(["C", "C", "F", "strided"])}}
             return {"l": its, "shape": list(node.shape)}
+        if k == "ref":
+            # inside a compound value: null the reference, or leave it bound where it is
+            return None if rng.random() < 0.5 or node.to is None else "keep"
+        if k == "uref":
+            return None if rng.random() < 0.5 or node.to is None else "keep"
         return None
 
     def bind(self, w):
@@ -1037,11 +1055,22 @@ class Step:
             py, vnode = mat.mat(t, op["value"])
         except KeyError:
             raise Skip()
-        if not _shape_compatible(w.schema, t, node, vnode):
+        replace_whole = False
+        if isinstance(op["value"], dict) and "d" in op["value"] and isinstance(vnode, M.StructNode):
+            # a dict updates the fields it names; the others stay as they are
+            vnode.f = {kf: v for kf, v in vnode.f.items() if kf in op["value"]["d"]}
+        if not (isinstance(op["value"], dict) and "obj" in op["value"]) and not _shape_compatible(w.schema, t, node, vnode):
             raise Skip()
         if isinstance(op["value"], dict) and "obj" in op["value"]:
-            if op["value"]["obj"] == o.k or not _same_caps(w.schema, t, node, vnode):
+            if op["value"]["obj"] == o.k or w.schema[t]["k"] != "struct":
                 raise Skip()
+            srco = w.objs[op["value"]["obj"]]
+            if not typegen.has_refs(w.schema, t) and self._part_extent(o, path) == self._extent(srco) and self._extent(srco) > 0:
+                # same class, same total size, no references: the library byte-copies the value, which
+                # replaces the nested object wholesale (its shapes, capacities and split come along)
+                replace_whole = not (_shape_compatible(w.schema, t, node, vnode) and _same_caps(w.schema, t, node, vnode))
+            elif not _shape_compatible(w.schema, t, node, vnode):
+                raise Skip()  # would be updated field by field, which may legitimately refuse it
             if typegen.has_refs(w.schema, t):
                 self.res.probe("assignment_of_reference_bearing_compound")
             if mat.foreign or w.objs[op["value"]["obj"]].buf is not o.buf:
@@ -1063,10 +1092,26 @@ class Step:
             self.outcome = "raised:" + exc_sig(e)
             self.viol("C10", "fitting_assignment_raised", ["set", exc_sig(e), typegen.features(w.schema, t), _form(op["value"])], f"{type(e).__name__}: {e}; path {path}; value {str(op['value'])[:200]}")
             return
-        M.store_at(parent, key, M.assign_into(w.schema, t, node, vnode))
+        if replace_whole:
+            M.store_at(parent, key, vnode)
+            if self.pre_layout is not None:
+                self.pre_layout.pop(o.k, None)
+            self.res.probe("nested_assignment_same_size_other_split")
+        else:
+            M.store_at(parent, key, M.assign_into(w.schema, t, node, vnode))
         self.res.probe("set_via_" + str(op.get("via")))
         if "*" in path:
             self.res.probe("write_through_reference")
+
+    def _part_extent(self, o, path):
+        try:
+            lay = []
+            self.w.dec.decode(o.t, seams.raw_bytes(o.buf), o.off, o.bufid, lay, None, (), True)
+        except DecodeError:
+            return -1
+        key = tuple(tuple(el) if isinstance(el, list) else el for el in path)
+        hit = [x for x in lay if x[0] == key]
+        return hit[0][2] - hit[0][1] if hit else -1
 
     def _allow_path(self, o, path):
         """Allocations that physically contain the addressed element: the top
